@@ -115,8 +115,22 @@ pub struct Dispatch {
     pub writer: Vec<Arm>,
 }
 
+/// byte classes and constants read off the source (Generated/Lexical.lean)
+#[derive(Default, Debug, Clone)]
+pub struct Lexical {
+    /// name → sorted set of byte values
+    pub sets: BTreeMap<String, Vec<u8>>,
+    /// name → byte string (order kept)
+    pub strings: BTreeMap<String, Vec<u8>>,
+    /// name → number
+    pub nats: BTreeMap<String, u64>,
+    /// where each item was found (documentation)
+    pub origin: BTreeMap<String, String>,
+}
+
 #[derive(Default, Debug)]
 pub struct Extracted {
+    pub lexical: Lexical,
     pub dispatch: Vec<Dispatch>,
     pub models: Vec<Model>,
     pub option_reader: OptionReader,
@@ -949,6 +963,341 @@ fn dispatch_tables(parsed: &BTreeMap<String, syn::File>, models: &[Model]) -> Ve
     out
 }
 
+
+// ------------------------------------------------------------------------------------------------
+// byte classes and constants (Generated/Lexical.lean)
+
+fn find_fn_tokens(items: &[syn::Item], name: &str, self_ty: Option<&str>) -> Option<proc_macro2::TokenStream> {
+    for it in items {
+        match it {
+            syn::Item::Fn(f) if self_ty.is_none() && f.sig.ident == name => return Some(quote::ToTokens::to_token_stream(&f.block)),
+            syn::Item::Impl(im) => {
+                let ty = type_text(&im.self_ty);
+                let base = ty.split('<').next().unwrap_or("").to_string();
+                if self_ty.map(|t| t == base).unwrap_or(false) {
+                    for ii in &im.items {
+                        if let syn::ImplItem::Fn(f) = ii {
+                            if f.sig.ident == name {
+                                return Some(quote::ToTokens::to_token_stream(&f.block));
+                            }
+                        }
+                    }
+                }
+            }
+            syn::Item::Trait(tr) => {
+                if self_ty.map(|t| tr.ident == t).unwrap_or(false) {
+                    for ti in &tr.items {
+                        if let syn::TraitItem::Fn(f) = ti {
+                            if f.sig.ident == name {
+                                if let Some(b) = &f.default {
+                                    return Some(quote::ToTokens::to_token_stream(b));
+                                }
+                            }
+                        }
+                    }
+                }
+            }
+            syn::Item::Mod(m) if !is_cfg_test(&m.attrs) => {
+                if let Some((_, inner)) = &m.content {
+                    if let Some(t) = find_fn_tokens(inner, name, self_ty) {
+                        return Some(t);
+                    }
+                }
+            }
+            _ => {}
+        }
+    }
+    None
+}
+
+/// byte value of a literal token: `0`, `12`, `b' '`, `b'\\x0c'`
+fn lit_byte(l: &proc_macro2::Literal) -> Option<u8> {
+    match syn::parse_str::<syn::Lit>(&l.to_string()).ok()? {
+        syn::Lit::Byte(b) => Some(b.value()),
+        syn::Lit::Int(i) => i.base10_parse::<u8>().ok(),
+        _ => None,
+    }
+}
+
+fn lit_int(l: &proc_macro2::Literal) -> Option<u64> {
+    match syn::parse_str::<syn::Lit>(&l.to_string()).ok()? {
+        syn::Lit::Int(i) => i.base10_parse::<u64>().ok(),
+        _ => None,
+    }
+}
+
+fn lit_bytestr(l: &proc_macro2::Literal) -> Option<Vec<u8>> {
+    match syn::parse_str::<syn::Lit>(&l.to_string()).ok()? {
+        syn::Lit::ByteStr(b) => Some(b.value()),
+        _ => None,
+    }
+}
+
+/// the argument groups of the first `name ( … )` / `name ! ( … )` in the token stream, searched depth first
+fn first_call_args(ts: &proc_macro2::TokenStream, name: &str) -> Option<Vec<Vec<proc_macro2::TokenTree>>> {
+    let toks: Vec<proc_macro2::TokenTree> = ts.clone().into_iter().collect();
+    for i in 0..toks.len() {
+        if let proc_macro2::TokenTree::Ident(id) = &toks[i] {
+            if id == name {
+                let mut j = i + 1;
+                if let Some(proc_macro2::TokenTree::Punct(p)) = toks.get(j) {
+                    if p.as_char() == '!' {
+                        j += 1;
+                    }
+                }
+                if let Some(proc_macro2::TokenTree::Group(g)) = toks.get(j) {
+                    if g.delimiter() == proc_macro2::Delimiter::Parenthesis {
+                        let mut args: Vec<Vec<proc_macro2::TokenTree>> = vec![vec![]];
+                        for t in g.stream() {
+                            match &t {
+                                proc_macro2::TokenTree::Punct(p) if p.as_char() == ',' => args.push(vec![]),
+                                _ => args.last_mut().unwrap().push(t),
+                            }
+                        }
+                        return Some(args);
+                    }
+                }
+            }
+        }
+        if let proc_macro2::TokenTree::Group(g) = &toks[i] {
+            if let Some(a) = first_call_args(&g.stream(), name) {
+                return Some(a);
+            }
+        }
+    }
+    None
+}
+
+/// `matches!(b, A | B | …)`: the byte values of the alternatives
+fn matches_set(ts: &proc_macro2::TokenStream) -> Option<Vec<u8>> {
+    let args = first_call_args(ts, "matches")?;
+    if args.len() != 2 {
+        return None;
+    }
+    let mut out = vec![];
+    for t in &args[1] {
+        match t {
+            proc_macro2::TokenTree::Literal(l) => out.push(lit_byte(l)?),
+            proc_macro2::TokenTree::Punct(p) if p.as_char() == '|' => {}
+            _ => return None,
+        }
+    }
+    out.sort();
+    out.dedup();
+    Some(out)
+}
+
+fn first_bytestr(ts: &proc_macro2::TokenStream) -> Option<Vec<u8>> {
+    for t in ts.clone() {
+        match t {
+            proc_macro2::TokenTree::Literal(l) => {
+                if let Some(b) = lit_bytestr(&l) {
+                    return Some(b);
+                }
+            }
+            proc_macro2::TokenTree::Group(g) => {
+                if let Some(b) = first_bytestr(&g.stream()) {
+                    return Some(b);
+                }
+            }
+            _ => {}
+        }
+    }
+    None
+}
+
+fn const_value(items: &[syn::Item], name: &str) -> Option<u64> {
+    for it in items {
+        match it {
+            syn::Item::Const(c) if c.ident == name => {
+                if let syn::Expr::Lit(syn::ExprLit { lit: syn::Lit::Int(i), .. }) = &*c.expr {
+                    return i.base10_parse::<u64>().ok();
+                }
+                return None;
+            }
+            syn::Item::Mod(m) if !is_cfg_test(&m.attrs) => {
+                if let Some((_, inner)) = &m.content {
+                    if let Some(v) = const_value(inner, name) {
+                        return Some(v);
+                    }
+                }
+            }
+            _ => {}
+        }
+    }
+    None
+}
+
+/// last argument of the first call of `callee` inside function `func`, an integer literal
+fn last_int_arg(file: &syn::File, func: &str, self_ty: Option<&str>, callee: &str) -> Option<u64> {
+    let body = find_fn_tokens(&file.items, func, self_ty)?;
+    let args = first_call_args(&body, callee)?;
+    let last = args.last()?;
+    if last.len() != 1 {
+        return None;
+    }
+    match &last[0] {
+        proc_macro2::TokenTree::Literal(l) => lit_int(l),
+        _ => None,
+    }
+}
+
+fn lexical_tables(parsed: &BTreeMap<String, syn::File>, problems: &mut Vec<String>) -> Lexical {
+    let mut lx = Lexical::default();
+    let mut file = |rel: &str, problems: &mut Vec<String>| -> Option<&syn::File> {
+        let f = parsed.get(rel);
+        if f.is_none() {
+            problems.push(format!("lexical: module file {} not found", rel));
+        }
+        f
+    };
+    macro_rules! need {
+        ($opt:expr, $what:expr) => {
+            match $opt {
+                Some(v) => Some(v),
+                None => {
+                    problems.push(format!("lexical: pattern not found: {}", $what));
+                    None
+                }
+            }
+        };
+    }
+    // parser/lexer/mod.rs: fn is_whitespace(b) { matches!(b, …) } ; Lexer::is_delimiter: b"…".contains(b)
+    if let Some(f) = file("parser/lexer/mod.rs", problems) {
+        if let Some(v) = need!(find_fn_tokens(&f.items, "is_whitespace", None).and_then(|b| matches_set(&b)), "fn is_whitespace(b) { matches!(b, A | B | …) } in parser/lexer/mod.rs") {
+            lx.sets.insert("lexWhitespace".into(), v);
+            lx.origin.insert("lexWhitespace".into(), "parser/lexer/mod.rs fn is_whitespace".into());
+        }
+        if let Some(mut v) = need!(find_fn_tokens(&f.items, "is_delimiter", Some("Lexer")).and_then(|b| first_bytestr(&b)), "Lexer::is_delimiter: b\"…\".contains(b) in parser/lexer/mod.rs") {
+            v.sort();
+            v.dedup();
+            lx.sets.insert("lexDelimiters".into(), v);
+            lx.origin.insert("lexDelimiters".into(), "parser/lexer/mod.rs Lexer::is_delimiter".into());
+        }
+    }
+    // enc.rs: the white-space filters of the two ASCII decoders
+    if let Some(f) = file("enc.rs", problems) {
+        for (func, name) in [("decode_hex", "hexDecodeWhitespace"), ("decode_85", "a85DecodeWhitespace")] {
+            if let Some(v) = need!(find_fn_tokens(&f.items, func, None).and_then(|b| matches_set(&b)), format!("fn {}: .filter(|&b| !matches!(b, …)) in enc.rs", func)) {
+                lx.sets.insert(name.into(), v);
+                lx.origin.insert(name.into(), format!("enc.rs fn {}", func));
+            }
+        }
+    }
+    // primitive.rs: serialize_name: `b'!' ..= b'~' if !b"…".contains(&b)` stands for itself
+    if let Some(f) = file("primitive.rs", problems) {
+        let mut found = false;
+        for it in &f.items {
+            if let syn::Item::Fn(func) = it {
+                if func.sig.ident != "serialize_name" {
+                    continue;
+                }
+                struct V {
+                    out: Option<(u8, u8, Vec<u8>)>,
+                }
+                impl<'ast> syn::visit::Visit<'ast> for V {
+                    fn visit_arm(&mut self, arm: &'ast syn::Arm) {
+                        if let syn::Pat::Range(r) = &arm.pat {
+                            let b = |e: &Option<Box<syn::Expr>>| match e.as_deref() {
+                                Some(syn::Expr::Lit(syn::ExprLit { lit: syn::Lit::Byte(b), .. })) => Some(b.value()),
+                                _ => None,
+                            };
+                            let closed = matches!(r.limits, syn::RangeLimits::Closed(_));
+                            if let (Some(lo), Some(hi), true, Some((_, g))) = (b(&r.start), b(&r.end), closed, &arm.guard) {
+                                if let syn::Expr::Unary(syn::ExprUnary { op: syn::UnOp::Not(_), expr, .. }) = &**g {
+                                    if let Some(mut ex) = first_bytestr(&quote::ToTokens::to_token_stream(expr)) {
+                                        ex.sort();
+                                        ex.dedup();
+                                        self.out = Some((lo, hi, ex));
+                                    }
+                                }
+                            }
+                        }
+                        syn::visit::visit_arm(self, arm);
+                    }
+                }
+                let mut v = V { out: None };
+                syn::visit::Visit::visit_block(&mut v, &func.block);
+                if let Some((lo, hi, ex)) = v.out {
+                    found = true;
+                    lx.nats.insert("nameVerbatimLo".into(), lo as u64);
+                    lx.nats.insert("nameVerbatimHi".into(), hi as u64);
+                    lx.sets.insert("nameVerbatimExcept".into(), ex);
+                    for k in ["nameVerbatimLo", "nameVerbatimHi", "nameVerbatimExcept"] {
+                        lx.origin.insert(k.into(), "primitive.rs fn serialize_name".into());
+                    }
+                }
+            }
+        }
+        if !found {
+            problems.push("lexical: pattern not found: serialize_name: arm `b'lo' ..= b'hi' if !b\"…\".contains(&b)` in primitive.rs".into());
+        }
+    }
+    // named constants
+    for (rel, cname, name) in [
+        ("parser/mod.rs", "MAX_DEPTH", "parserMaxDepth"),
+        ("backend.rs", "MAX_ID", "maxId"),
+        ("file.rs", "MAX_NESTED_GETS", "maxNestedGets"),
+        ("object/types.rs", "MAX_TREE_DEPTH", "maxTreeDepth"),
+        ("font.rs", "MAX_CID", "maxCid"),
+    ] {
+        if let Some(f) = file(rel, problems) {
+            if let Some(v) = need!(const_value(&f.items, cname), format!("const {}: _ = <integer literal> in {}", cname, rel)) {
+                lx.nats.insert(name.into(), v);
+                lx.origin.insert(name.into(), format!("{} const {}", rel, cname));
+            }
+        }
+    }
+    // backend.rs: the header search
+    if let Some(f) = file("backend.rs", problems) {
+        let body = find_fn_tokens(&f.items, "locate_start_offset", Some("Backend"));
+        if let Some(v) = need!(body.as_ref().and_then(|b| first_call_args(b, "min")).and_then(|a| a.first().and_then(|x| if x.len() == 1 { if let proc_macro2::TokenTree::Literal(l) = &x[0] { lit_int(l) } else { None } } else { None })), "Backend::locate_start_offset: min(<integer>, self.len()) in backend.rs") {
+            lx.nats.insert("headerWindow".into(), v);
+            lx.origin.insert("headerWindow".into(), "backend.rs Backend::locate_start_offset".into());
+        }
+        if let Some(v) = need!(body.as_ref().and_then(first_bytestr), "Backend::locate_start_offset: const HEADER = b\"…\" in backend.rs") {
+            lx.strings.insert("headerMarker".into(), v);
+            lx.origin.insert("headerMarker".into(), "backend.rs Backend::locate_start_offset".into());
+        }
+    }
+    // depth budgets passed as the last argument of a call
+    for (rel, func, self_ty, callee, name) in [
+        ("object/types.rs", "page", Some("PageTree"), "page_limited", "pageTreeDepth"),
+        ("object/color.rs", "from_primitive", Some("ColorSpace"), "from_primitive_depth", "colorSpaceDepth"),
+        ("object/types.rs", "from_primitive", Some("AppearanceStreamEntry"), "from_primitive_depth", "appearanceDepth"),
+        ("object/mod.rs", "resolve", Some("Resolve"), "resolve_flags", "resolveDepth"),
+    ] {
+        if let Some(f) = file(rel, problems) {
+            if let Some(v) = need!(last_int_arg(f, func, self_ty, callee), format!("{}::{}: {}(.., <integer literal>) in {}", self_ty.unwrap_or(""), func, callee, rel)) {
+                lx.nats.insert(name.into(), v);
+                lx.origin.insert(name.into(), format!("{} {}::{} → {}", rel, self_ty.unwrap_or(""), func, callee));
+            }
+        }
+    }
+    lx
+}
+
+pub fn lean_lexical_text(ex: &Extracted) -> String {
+    let lx = &ex.lexical;
+    let mut o = String::new();
+    o.push_str("/-! GENERATED by `pdfverif extract` (harness/src/extract.rs) from `pdf/src/**/*.rs`. Do not edit.\n");
+    o.push_str("    Byte classes (sorted sets of byte values) and constants as they stand in the source under test. The\n");
+    o.push_str("    `constants_match_source` theorems of Props/C01, C03, C04, C05, C07, C14, C17, C19 tie each model's own\n");
+    o.push_str("    classifier / constant to these. -/\n\nnamespace Generated\n\n");
+    let list = |v: &[u8]| format!("[{}]", v.iter().map(|b| b.to_string()).collect::<Vec<_>>().join(", "));
+    for (k, v) in &lx.sets {
+        o.push_str(&format!("/-- {} -/\ndef {} : List Nat := {}\n\n", lx.origin.get(k).cloned().unwrap_or_default(), k, list(v)));
+    }
+    for (k, v) in &lx.strings {
+        o.push_str(&format!("/-- {} -/\ndef {} : List Nat := {}\n\n", lx.origin.get(k).cloned().unwrap_or_default(), k, list(v)));
+    }
+    for (k, v) in &lx.nats {
+        o.push_str(&format!("/-- {} -/\ndef {} : Nat := {}\n\n", lx.origin.get(k).cloned().unwrap_or_default(), k, v));
+    }
+    o.push_str("end Generated\n");
+    o
+}
+
 // ------------------------------------------------------------------------------------------------
 
 pub fn extract(repo_root: &str) -> Extracted {
@@ -1089,6 +1438,7 @@ pub fn extract(repo_root: &str) -> Extracted {
     }
     ex.models.sort_by(|a, b| a.name.cmp(&b.name));
     ex.option_reader = option_reader(&parsed, &mut ex.problems);
+    ex.lexical = lexical_tables(&parsed, &mut ex.problems);
     ex.dispatch = dispatch_tables(&parsed, &ex.models);
     if ex.dispatch.is_empty() {
         ex.problems.push("no hand-written reader / writer dispatch (match arms from a tag to an enum variant) found at all".into());
@@ -1308,6 +1658,9 @@ pub fn json_value(ex: &Extracted) -> Value {
             "reader": d.reader.iter().map(|a| json!({"func": a.func, "tags": a.tags, "variants": a.variants})).collect::<Vec<_>>(),
             "writer": d.writer.iter().map(|a| json!({"func": a.func, "tags": a.tags, "variants": a.variants})).collect::<Vec<_>>(),
         })).collect::<Vec<_>>(),
+        "lexical": {
+            "sets": ex.lexical.sets, "strings": ex.lexical.strings, "nats": ex.lexical.nats, "origin": ex.lexical.origin,
+        },
         "files_parsed": ex.files.len(),
     })
 }
@@ -1469,8 +1822,9 @@ pub fn main(args: &[String], default_repo: &str) -> i32 {
     let lean = lean_text(&ex);
     let js = serde_json::to_string_pretty(&json_value(&ex)).unwrap() + "\n";
     let disp = lean_dispatch_text(&ex);
+    let lexi = lean_lexical_text(&ex);
     let dir = Path::new(&out_dir);
-    for (name, body) in [("Schemas.lean", &lean), ("Dispatch.lean", &disp), ("schemas.json", &js)] {
+    for (name, body) in [("Schemas.lean", &lean), ("Dispatch.lean", &disp), ("Lexical.lean", &lexi), ("schemas.json", &js)] {
         match write_if_changed(&dir.join(name), body) {
             Ok(ch) => println!("extract: {} {}", dir.join(name).display(), if ch { "rewritten" } else { "unchanged" }),
             Err(e) => {
